@@ -306,6 +306,7 @@ def run(ctx: Ctx) -> None:
     _memo.rule_elim_no_pivot(ctx, ['graphiq/backends/stabilizer/functions/metric.py', 'graphiq/backends/stabilizer/functions/stabilizer.py', 'graphiq/backends/stabilizer/tableau.py', 'graphiq/backends/stabilizer/clifford_tableau.py'])
     _memo.rule_subject_drift(ctx, ['graphiq/backends/stabilizer/functions/metric.py', 'graphiq/backends/stabilizer/functions/stabilizer.py', 'graphiq/backends/stabilizer/tableau.py', 'graphiq/backends/stabilizer/clifford_tableau.py'])
     rule_eq_fields(ctx)
+    tableau.rule_eq_decision(ctx)
     tableau.rule_rowops(ctx)
     tableau.rule_phase_combine(ctx)
     rule_fid_shape(ctx)
@@ -337,6 +338,8 @@ def _hoist(src: str) -> str:
 
 
 KNOCKOUTS = [
+    Knockout("stabilizer-tableau-eq-or", TABLEAU, sub_once("            return np.all(self.phase == other.phase) and np.array_equal(", "            return np.all(self.phase == other.phase) or np.array_equal("), "eq.decision", "StabilizerTableau.__eq__"),
+    Knockout("clifford-tableau-eq-drops-iphase", CTABLEAU, sub_once("                and np.all(self.iphase == other.iphase)\n", ""), "eq.decision", "CliffordTableau.__eq__"),
     Knockout("fidelity-exponent-truncated", METRIC, sub_once("    return np.abs(inner_product(tableau1, tableau2)) ** 2", "    overlap = np.abs(inner_product(tableau1, tableau2))\n    if overlap == 0:\n        return 0.0\n    return 2.0 ** int(2 * np.log2(overlap))"), "fid.shape", "int() of a float logarithm"),
     Knockout("inverse-circuit-z-elimination-swapped", "graphiq/backends/stabilizer/functions/stabilizer.py", sub_once("                tableau = tab_row_sum(tableau, j, k)\n", "                tableau = tab_row_sum(tableau, k, j)\n"), "elim.direction", "inverse_circuit"),
     Knockout("prim-g-z-branch", "graphiq/backends/stabilizer/functions/linalg.py", sub_once("        return x2 * (1 - 2 * z2)\n", "        return x2 * (2 * z2 - 1)\n"), "prim.g-table", "g_function"),
